@@ -176,7 +176,7 @@ theorem mkdir_prefixMod {w : World} (hroot : isDir (find w []) = true) (p : Path
     (hn : NoLinkUpTo w p.dropLast) (mode : Nat) : PrefixMod p w (mkdir w p mode).1 := by
   rcases List.eq_nil_or_concat p with e | ⟨par, nm, e⟩
   · subst e
-    have : resolve w [] false = .ok [] := by simp [resolve, walk]
+    have : resolve w [] false = .ok [] := by unfold resolve walk; simp [walkSeg]
     have hsome : (find w []).isSome = true := by
       cases hf : find w [] with
       | none => simp [hf, isDir] at hroot
@@ -676,7 +676,7 @@ theorem outputPath_spec {w : World} : ∀ (rel : List String) (cur p : Path), Le
           obtain ⟨e1, e2⟩ := outputPath_spec (c2 :: rest) (cur ++ [c]) p hl' (fun x hx => hs x (by simp [hx])) h
           refine ⟨by simp [e1], fun _ => ?_⟩
           have := e2 (by simp)
-          simpa [List.dropLast_cons₂] using this
+          simpa [List.dropLast_cons_cons] using this
 
 theorem applyDeferred_inv {T : Path} (hT : T ≠ []) {w0 w : World} {ds : List Deferred} (I : LInv T w0 w ds)
     (m : Deferred) (hm : DefOK T w m) :
